@@ -192,6 +192,10 @@ class ImmutableBaseModel(BaseModel):
             raise AttributeError(msg)
         super().__setattr__(name, value)
 
+    def _is_validated(self) -> bool:
+        private = self.__pydantic_private__
+        return bool(private is not None and private.get("_is_immutable"))
+
     def __delattr__(self, name: str) -> None:
         if self._is_immutable:
             msg = f"{self.__class__.__name__} is immutable"
